@@ -541,6 +541,12 @@ Definition case_lines (c : ty * val) : list string :=
       ++ (if multi_ok d
           then request_lines "M" 1 false (requests 3 (into_return d v))
                ++ request_lines "T" 1 false (requests 3 (into_return d v))
+               (* every quantifier applied to `returns(v)` demands T: IntoReturn and stores the multi-use form
+                  (build.rs QuantifyReturnValue::{n_times, at_least_times}), whatever the number *)
+               ++ request_lines "A" 1 false (requests 3 (into_return d v))
+               ++ request_lines "Q" 1 false (requests 3 (into_return d v))
+               ++ request_lines "U" 1 false (requests 2 (into_return d v))
+               ++ request_lines "E" 1 false (requests 1 (into_return d v))
           else [])
       ++ ["--"]
   end.
